@@ -23,9 +23,10 @@ def isMapV : Val → Bool
   | .map _ => true
   | _ => false
 
-/-- a bound key the theorems speak about: a real path; `map` implies `repeated` (as in `Field.map`);
+/-- a bound key the theorems speak about: a real path; `map` implies `repeated` (as in `Field.map`)
+and excludes `struct_pb2.Value` (a map field's type is its entry message);
 the argument has the kind of the field (list for repeated, dict for map, neither for singular);
-an EMPTY list/dict is passed only for a top-level key. -/
+an EMPTY list/dict is passed only for a top-level key (FORCED: see `falsy_dotted_counterexample`). -/
 def good (b : Bound) : Bool :=
   !b.1.path.isEmpty && (!b.1.isMap || b.1.repeated) && (!b.1.isValue || !b.1.isMap) &&
   match b.2 with
@@ -34,7 +35,8 @@ def good (b : Bound) : Bool :=
     (if b.1.isMap then isMapV v else if b.1.repeated then isListV v else !v.isEmptyContainer) &&
     (!v.isEmptyContainer || b.1.path.length == 1)
 
-/-- no flattened key is a prefix of another one -/
+/-- no flattened key is a prefix of another one (FORCED: see `overlap_counterexample`);
+`incomp_iff_not_prefix` relates `incomp` to `<+:` -/
 def PrefixFree (bs : List Bound) : Prop := bs.Pairwise (fun a b => incomp a.1.path b.1.path = true)
 
 /-- none of the keys has been written yet -/
